@@ -2,6 +2,7 @@ package main
 
 import (
 	"fmt"
+	"math/big"
 	"os"
 	"regexp"
 	"runtime/debug"
@@ -131,6 +132,11 @@ func (p *Path) inputTerms() []*Term {
 	for i, in := range p.inputs {
 		ts[i] = in.T
 	}
+	for _, in := range p.inputs {
+		if raw, ok := p.decStr[in.Name]; ok {
+			ts = append(ts, raw)
+		}
+	}
 	return ts
 }
 
@@ -141,6 +147,15 @@ func (p *Path) modelToInputs(model map[string]string) map[string]string {
 		key := r.Render(in.T)
 		if v, ok := model[key]; ok {
 			out[in.Name] = v
+		}
+		// a string input that the code parses as a decimal: the solver chose its numeric value
+		// through the uninterpreted parser, realise the string as the canonical rendering of it
+		if raw, ok := p.decStr[in.Name]; ok {
+			if v, ok := model[r.Render(raw)]; ok {
+				if n, ok := new(big.Int).SetString(strings.ReplaceAll(v, " ", ""), 10); ok {
+					out[in.Name] = "s:" + decString(n)
+				}
+			}
 		}
 	}
 	return out
@@ -433,4 +448,23 @@ func (e *Engine) runPath(fn *ssa.Function, trail []decision, hr *HarnessRun, ses
 	}
 	hr.mu.Unlock()
 	return p.alts, fatal
+}
+
+// decString renders raw (value × 10^18) as a decimal string without trailing zeros.
+func decString(raw *big.Int) string {
+	neg := raw.Sign() < 0
+	a := new(big.Int).Abs(raw)
+	q, r := new(big.Int).QuoRem(a, ten18, new(big.Int))
+	out := q.String()
+	if r.Sign() != 0 {
+		f := r.String()
+		for len(f) < 18 {
+			f = "0" + f
+		}
+		out += "." + strings.TrimRight(f, "0")
+	}
+	if neg {
+		out = "-" + out
+	}
+	return out
 }
